@@ -104,7 +104,7 @@ def run(tier, seed):
         "a call that has returned is considered finished once the engine reports it completed or its worker thread has started something else",
     ]
     run_mc(res)
-    tasks = gen_tasks(1200 if tier == "quick" else 12000, seed, 8 if tier == "quick" else 12)
+    tasks = gen_tasks(1200 if tier == "quick" else 6000, seed, 8 if tier == "quick" else 12)
     ft, fr, _ = EC.run_tasks(tasks)
     traces, keep = [], []
     for t, r in zip(ft, fr):
